@@ -618,6 +618,10 @@ def r_handle_faults(d):
     import pygopherd.handlers.base as hb
     import pygopherd.handlers.HandlerMultiplexer as hm
     mod, cls, meth = _class_of(d["function"])
+    if cls is not None and cls.__name__ == "BaseGopherProtocol":
+        # the abstract base class ("renderobjinfo MUST BE OVERRIDDEN") is never selected by the protocol multiplexer:
+        # a method defined on it is exercised through its first concrete subclass
+        from pygopherd.protocols.rfc1436 import GopherProtocol as cls  # noqa: F811
     logs = []
     logger.log = lambda m: logs.append(m)
     findings = []
